@@ -188,7 +188,7 @@ class Writer:
                 g = e.args[0]
                 if isinstance(g, ast.Name) and isinstance(env.get(g.id), Seq) and g.id in getattr(self, 'listacc', ()):
                     return Seq(env[g.id])        # a list of byte pieces built with .append(): the join is their concatenation
-                if isinstance(g, ast.Name) and isinstance(env.get(g.id), (ast.List, ast.Tuple)):
+                if isinstance(g, ast.Name) and isinstance(env.get(g.id), (ast.List, ast.Tuple, ast.ListComp, ast.GeneratorExp)):
                     g = env[g.id]
                 if isinstance(g, (ast.List, ast.Tuple)):
                     # a literal list of pieces: their concatenation
@@ -337,6 +337,17 @@ class Writer:
                             self.listacc = set()
                         self.listacc.add(t.id)
                         env[t.id] = Seq()
+                    elif isinstance(s.value, ast.List) and s.value.elts and all(self.expr(x, env, mod) is not None and
+                                                                                 not (len(self.expr(x, env, mod)) == 1 and self.expr(x, env, mod)[0][0] == 'RAW' and not isinstance(x, ast.Call))
+                                                                                 for x in s.value.elts):
+                        # a list that starts with some byte pieces (a header) and collects more with .append()
+                        if not hasattr(self, 'listacc'):
+                            self.listacc = set()
+                        self.listacc.add(t.id)
+                        acc = Seq()
+                        for x in s.value.elts:
+                            acc = Seq(acc + self.expr(x, env, mod))
+                        env[t.id] = acc
                     else:
                         self._store(env, t.id, s.value, mod)
                 elif isinstance(t, ast.Attribute) and U(t.value) == 'self':
@@ -374,6 +385,16 @@ class Writer:
                 for k, v in inner.items():
                     if isinstance(v, Seq) and v and isinstance(env.get(k), Seq):
                         env[k] = Seq(env[k] + [('REP', v, self.u(s.iter, env, mod), U(s.target))])
+                # an integer accumulated over the loop:  n = c; for e in xs: n += f(e)   ==>   n = c + sum(f(e) for e in xs)
+                if isinstance(s.target, ast.Name):
+                    for k in list(env):
+                        a0, a1 = env.get(k), inner.get(k)
+                        if isinstance(a0, ast.AST) and isinstance(a1, ast.BinOp) and isinstance(a1.op, ast.Add) and ast.dump(a1.left) == ast.dump(a0) \
+                                and not any(isinstance(x, ast.Name) and x.id == k for x in ast.walk(a1.right)):
+                            gen = ast.GeneratorExp(elt=a1.right, generators=[ast.comprehension(target=ast.Name(id=s.target.id, ctx=ast.Store()), iter=s.iter, ifs=[], is_async=0)])
+                            tot = ast.BinOp(left=a0, op=ast.Add(), right=ast.Call(func=ast.Name(id='sum', ctx=ast.Load()), args=[gen], keywords=[]))
+                            ast.fix_missing_locations(tot)
+                            env[k] = inner[k] = tot
                 # attributes / locals changed inside the loop body are unknown afterwards
                 for k in list(env):
                     if isinstance(env[k], ast.AST) and (k not in inner or not isinstance(inner[k], ast.AST) or ast.dump(inner[k]) != ast.dump(env[k])):
